@@ -70,7 +70,7 @@ func init() {
 			"a case = (environment, transport, method, variant); non-trivial = the call reached a keystore signing entry point (attempt counter moved) or the method takes an account/passphrase/transaction argument; distinct by (env, transport, method, variant)",
 		Legs: func(tier string) []fw.Leg {
 			combos := envCombos(tier)
-			return []fw.Leg{{Name: "env", Variant: "plain", Batches: len(combos), Parallel: 8, Timeout: 15 * time.Minute,
+			return []fw.Leg{{Name: "env", Variant: "plain", Batches: len(combos), Parallel: 8, Timeout: 45 * time.Minute,
 				EnvFor: func(b int) []string {
 					var env []string
 					for _, v := range combos[b] {
